@@ -421,6 +421,25 @@ func c06Props() []c06Prop {
 	add("yang-version", ``, func(m *meta.Module) string { return m.Version() }, "1.1")
 	add("prefix", ``, func(m *meta.Module) string { return m.Prefix() }, "p")
 	add("identity/base", `identity b; identity d { base b; }`, func(m *meta.Module) string { return fmt.Sprint(m.Identities()["d"].BaseIds()) }, "[b]")
+	add("identity/derived-listed-the-same-after-every-load", `identity b; identity d5 { base b; } identity d1 { base b; } identity d4 { base b; } identity d2 { base b; } identity d3 { base b; } identity d6 { base b; }`, func(m *meta.Module) string {
+		var first []string
+		for round := 0; round < 6; round++ {
+			again, err := parserLoad(c06Hdr + `revision 0; identity b; identity d5 { base b; } identity d1 { base b; } identity d4 { base b; } identity d2 { base b; } identity d3 { base b; } identity d6 { base b; } }`)
+			if err != nil {
+				return err.Error()
+			}
+			var names []string
+			for _, d := range again.Identities()["b"].DerivedDirect() {
+				names = append(names, d.Ident())
+			}
+			if first == nil {
+				first = names
+			} else if fmt.Sprint(first) != fmt.Sprint(names) {
+				return "order differs between loads"
+			}
+		}
+		return "same"
+	}, "same")
 	add("import/prefix-as-keyword", `leaf container { type string; } leaf leaf-x { type string; } leaf typex { type string; }`, func(m *meta.Module) string {
 		var s []string
 		for _, d := range m.DataDefinitions() {
